@@ -25,6 +25,7 @@ type edgeOut struct {
 	to   *ssa.BasicBlock
 	cond Term
 	st   *State
+	from *ssa.BasicBlock
 }
 
 type loopInfo struct {
@@ -72,6 +73,9 @@ type FnCtx struct {
 	covers   []*Obligation
 	resultNames []string
 	returnReach []Term
+	blockIns    map[*ssa.BasicBlock][]Term
+	blockVias   map[*ssa.BasicBlock][]string
+	lastVias    []string
 	facts       []Term
 }
 
@@ -144,6 +148,21 @@ func (fc *FnCtx) oblige(kind string, goal Term, text string, tags []string, labe
 	fc.assume(goal)
 }
 
+// obligeNoAssumeRaw records an obligation without assuming it afterwards (the caller assumes once for a whole split).
+func (fc *FnCtx) obligeNoAssumeRaw(kind string, goal Term, text string, tags []string, label string) {
+	fc.flushFacts()
+	if goal == "true" {
+		return
+	}
+	fc.kindCnt[kind]++
+	name := fmt.Sprintf("%s/%s/%d", fc.key, kind, fc.kindCnt[kind])
+	if label != "" {
+		name += "/" + label
+	}
+	o := &Obligation{Name: name, Func: fc.key, Kind: kind, Tags: tags, Label: label, Goal: implies(fc.reach, goal), LogLen: len(fc.log), Pos: fc.pos(), Text: text}
+	fc.obls = append(fc.obls, o)
+}
+
 var safetyTags = []string{"C02"}
 
 func (fc *FnCtx) obligeSafety(kind string, goal Term, text string) {
@@ -202,8 +221,37 @@ func (fc *FnCtx) localLookup(st *State, at token.Pos) func(string) (EV, bool) {
 			}
 		}
 		if best == nil {
-			// hidden names
-			return EV{}, false
+			// escaping (heap-allocated) named locals: the name denotes the variable's value for scalars and the
+			// object itself for library structs such as strings.Builder
+			var hb *ssa.Alloc
+			for v := range fc.vals {
+				a, ok := v.(*ssa.Alloc)
+				if !ok || a.Comment != name {
+					continue
+				}
+				if _, isLocal := fc.vals[a].(AddrLocal); isLocal {
+					continue
+				}
+				if hb == nil || (at.IsValid() && a.Pos() <= at && a.Pos() > hb.Pos()) {
+					hb = a
+				}
+			}
+			if hb == nil {
+				return EV{}, false
+			}
+			ref, ok := fc.vals[hb].(string)
+			if !ok {
+				return EV{}, false
+			}
+			et := hb.Type().(*types.Pointer).Elem()
+			if _, isStruct := et.Underlying().(*types.Struct); isStruct {
+				return EV{ref, SStruct, et}, true
+			}
+			if _, isArr := et.Underlying().(*types.Array); isArr {
+				return EV{ref, SInt, hb.Type()}, true
+			}
+			key, bs := fc.w.boxKey(et)
+			return EV{sel(st.Heap(key), ref), bs, et}, true
 		}
 		v := st.locals[best]
 		t := best.Type().(*types.Pointer).Elem()
@@ -395,7 +443,8 @@ func (fc *FnCtx) frameCheck(key string, obj Term, what string) {
 	}
 	var alts []Term
 	if obj != "" {
-		alts = append(alts, app("isfresh", obj, fc.alloc0))
+		// object 0 (nil) is never actually written: every store through it is guarded by a nil/bounds obligation
+		alts = append(alts, app("isfresh", obj, fc.alloc0), eq(obj, "0"))
 	}
 	for _, p := range fc.modPreds[key] {
 		alts = append(alts, p(obj))
@@ -410,7 +459,7 @@ func (fc *FnCtx) frameCheck(key string, obj Term, what string) {
 		}
 		var la []Term
 		if obj != "" {
-			la = append(la, app("isfresh", obj, li.allocIn))
+			la = append(la, app("isfresh", obj, li.allocIn), eq(obj, "0"))
 		}
 		for _, p := range li.modPreds[key] {
 			la = append(la, p(obj))
